@@ -230,7 +230,7 @@ func TestVerifP2PWireCases(t *testing.T) {
 			m = magic + 1
 		}
 		stream := append(pwHeader(m, f.Cmd, uint32(decl), cks)[:f.Hdr], payloadBytes...)
-		if progress != "" && (c.Kind == "count" || c.Kind == "length" || c.Kind == "random" || c.Kind == "randomtrail") {
+		if progress != "" && (c.Kind == "count" || c.Kind == "length" || c.Kind == "random" || c.Kind == "randomtrail" || c.Kind == "wrap" || c.Kind == "wrapany") {
 			os.WriteFile(progress, []byte(fmt.Sprint(i)), 0644)
 		}
 		o := pwObs{I: i, Stream: len(stream), Decl: decl}
